@@ -321,6 +321,7 @@ def _bounds(ctx: Ctx) -> None:
         return kind, desc
 
     scalars: dict[str, tuple[str, str] | None] = {}
+    unmodelled: list[ast.stmt] = []
     for s in func_body(tb):
         if isinstance(s, (ast.Assign, ast.AnnAssign)) and getattr(
                 s, "value", None) is not None:
@@ -349,6 +350,55 @@ def _bounds(ctx: Ctx) -> None:
                     for w in env.values():
                         if w.storage == dst.storage:
                             w.src, w.order = v.src, v.order
+        elif isinstance(s, ast.For):
+            # `for k in range(N): B[k] = A[N - 1 - k]`: B = A reversed
+            done = False
+            if isinstance(s.target, ast.Name) and isinstance(
+                    s.iter, ast.Call) and ast.unparse(
+                    s.iter.func) == "range" and len(
+                    s.iter.args) == 1 and len(s.body) == 1 and isinstance(
+                    s.body[0], ast.Assign) and not s.orelse:
+                st_ = s.body[0]
+                tg_, vl_ = st_.targets[0], st_.value
+                if isinstance(tg_, ast.Subscript) and isinstance(
+                        tg_.value, ast.Name) and isinstance(
+                        vl_, ast.Subscript) and isinstance(
+                        vl_.value, ast.Name) and tg_.value.id in env and \
+                        vl_.value.id in env and ast.unparse(
+                        tg_.slice) == s.target.id:
+                    from sa.kern import make_evaluator as _mk
+                    from sa.symterm import Env as _Env
+                    try:
+                        ev_ = _mk(repo, tb)
+                        kk = Poly.var(s.target.id)
+                        e0 = _Env()
+                        e0.vars[s.target.id] = kk
+                        idx = ev_.num(e0, inline_locals(tb.node, vl_.slice))
+                        nn = ev_.num(e0, inline_locals(
+                            tb.node, s.iter.args[0]))
+                        srcv, dstv = env[vl_.value.id], env[tg_.value.id]
+                        if idx == nn - Poly.const(1) - kk and \
+                                srcv.storage != dstv.storage:
+                            for w in env.values():
+                                if w.storage == dstv.storage:
+                                    w.src, w.order = srcv.src, rev(
+                                        srcv.order)
+                            done = True
+                        elif idx == kk and srcv.storage != dstv.storage:
+                            for w in env.values():
+                                if w.storage == dstv.storage:
+                                    w.src, w.order = srcv.src, srcv.order
+                            done = True
+                    except Unsupported:
+                        done = False
+            if not done:
+                problems.append((s, "cannot normalise the loop: not "
+                                    "recognised"))
+                unmodelled.append(s)
+        elif isinstance(s, (ast.While, ast.If, ast.With, ast.Try)):
+            problems.append((s, "cannot normalise this statement of "
+                                "trivial_bounds: not recognised"))
+            unmodelled.append(s)
         elif isinstance(s, ast.AugAssign):
             if isinstance(s.target, ast.Name) and s.target.id in env:
                 problems.append((s, "in-place update of a tracked array"))
@@ -376,11 +426,16 @@ def _bounds(ctx: Ctx) -> None:
         results[1][0] == "co"
     detail = f"lb = {results[0]}, ub = {results[1]}" if len(
         results) == 2 else "no (lb, ub) return found"
+    if unmodelled:
+        # nothing is claimed about array contents behind such a statement
+        problems = [pr for pr in problems if pr[0] in unmodelled]
+        detail = "trivial_bounds"
     if problems:
         detail += "; " + "; ".join(w for _, w in problems)
     ctx.ob("D9.3", tb, problems[0][0] if problems else tb.node, ok,
-           detail + ("" if ok else "; expected lb = anti-sorted and ub = "
-                     "co-sorted product sum of distances and flows"),
+           detail + ("" if ok or unmodelled else "; expected lb = "
+                     "anti-sorted and ub = co-sorted product sum of "
+                     "distances and flows"),
            construct="trivial bounds by rearrangement")
 
 
@@ -573,11 +628,15 @@ def _value_range(ctx: Ctx) -> None:
         for c in ast.walk(fi.node):
             if isinstance(c, ast.Call) and isinstance(
                     c.func, ast.Name) and c.func.id in (
-                    "check_int_range", "check_to_int_range") and len(
-                    c.args) >= 4:
-                out.append((repo.const(fi.module, inline_locals(
-                    fi.node, c.args[2])), repo.const(
-                    fi.module, inline_locals(fi.node, c.args[3])), c))
+                    "check_int_range", "check_to_int_range"):
+                from sa.srcmodel import bound_args
+                ba = bound_args(c, ["val", "name", "min_value",
+                                    "max_value"])
+                if "min_value" in ba and "max_value" in ba:
+                    out.append((repo.const(fi.module, inline_locals(
+                        fi.node, ba["min_value"])), repo.const(
+                        fi.module, inline_locals(
+                            fi.node, ba["max_value"])), c))
         return out
     # the converters the loader maps over the tokens
     convs = []
